@@ -72,7 +72,7 @@ def obs_from(res, spec, sr, recursive):
 def run(tier, seed):
     import sys as _s
     rng = random.Random(seed)
-    n = int(os.environ.get("VERIF_N", 0)) or (22 if tier == "quick" else 160)
+    n = int(os.environ.get("VERIF_N", 0)) or (22 if tier == "quick" else 500)
     violations = []
     jobs = []; info = []
     distinct = set()
